@@ -77,12 +77,21 @@ impl<'a> GeneratorState<'a> {
                 match right {
                     ExprType::Immediate(r) => {
                         match op {
-                            Operation::Add(_) => return Ok(ExprType::Immediate(l + r)),
-                            Operation::Sub(_) => return Ok(ExprType::Immediate(l - r)),
+                            Operation::Add(_) | Operation::Sub(_) | Operation::Mul(_) => {
+                                // A folded result that does not fit is rejected
+                                let res = match op {
+                                    Operation::Add(_) => l.checked_add(*r),
+                                    Operation::Sub(_) => l.checked_sub(*r),
+                                    _ => l.checked_mul(*r),
+                                };
+                                return match res {
+                                    Some(v) => Ok(ExprType::Immediate(v)),
+                                    None => Err(self.compiler_state.syntax_error("Constant expression overflow", pos)),
+                                };
+                            },
                             Operation::And(_) => return Ok(ExprType::Immediate(l & r)),
                             Operation::Or(_) => return Ok(ExprType::Immediate(l | r)),
                             Operation::Xor(_) => return Ok(ExprType::Immediate(l ^ r)),
-                            Operation::Mul(_) => return Ok(ExprType::Immediate(l * r)),
                             Operation::Div(_) => {
                                 if *r == 0 {
                                     return Err(self.compiler_state.syntax_error("Division by zero", pos));
@@ -331,8 +340,16 @@ impl<'a> GeneratorState<'a> {
                 match right {
                     ExprType::Immediate(r) => {
                         match op {
-                            Operation::Brs(_) => return Ok(ExprType::Immediate(l >> r)),
-                            Operation::Bls(_) => return Ok(ExprType::Immediate(l << r)),
+                            Operation::Brs(_) | Operation::Bls(_) => {
+                                // A shift count that is negative or not below 32 is rejected
+                                let res = u32::try_from(*r).ok().and_then(|count| {
+                                    if let Operation::Brs(_) = op { l.checked_shr(count) } else { l.checked_shl(count) }
+                                });
+                                return match res {
+                                    Some(v) => Ok(ExprType::Immediate(v)),
+                                    None => Err(self.compiler_state.syntax_error("Constant expression overflow", pos)),
+                                };
+                            },
                             _ => unreachable!(),
                         } 
                     },
